@@ -205,8 +205,8 @@ INSERTM_ENS = [
     ('fits_no_eviction', ['C05', 'C03', 'C04'], '(!%s && %s && (old(self).limit is None || %s.len() < old(self).limit->Some_0)) ==> '
      '%s == %s.insert(%s, %s) && final(self).order@ == touch(old(self).order@, %s)' % (OVERSIZE, MEMFITS, MA, M1, M0, K, NEW, K)),
     ('survivors_unchanged', ['C01', 'C05'], 'forall|x: String| x != %s && #[trigger] %s.contains_key(x) ==> %s.contains_key(x) && %s[x] == %s[x]' % (K, M1, M0, M1, M0)),
-    ('fifo_lru_oldest_first', ['C07'], '(!%s && (old(self).policy is FIFO || old(self).policy is LRU)) ==> is_suffix(final(self).order@.drop_last(), %s) && final(self).order@.last() == %s' % (OVERSIZE, QA, K)),
-    ('lfu_evicts_least_frequent', ['C08'], '(!%s && old(self).policy is LFU) ==> forall|x: String, y: String| #![trigger %s.contains_key(x), %s.contains_key(y)] '
+    ('fifo_lru_oldest_first', ['C07', 'C05'], '(!%s && (old(self).policy is FIFO || old(self).policy is LRU)) ==> is_suffix(final(self).order@.drop_last(), %s) && final(self).order@.last() == %s' % (OVERSIZE, QA, K)),
+    ('lfu_evicts_least_frequent', ['C08', 'C05'], '(!%s && old(self).policy is LFU) ==> forall|x: String, y: String| #![trigger %s.contains_key(x), %s.contains_key(y)] '
      '%s.contains_key(x) && !%s.contains_key(x) && %s.contains_key(y) && y != %s ==> %s[x].2 <= %s[y].2' % (OVERSIZE, MA, M1, MA, M1, M1, K, MA, MA)),
     ('bound', ['C04'], '(old(self).limit is Some && %s.len() <= old(self).limit->Some_0) ==> %s.len() <= old(self).limit->Some_0' % (M0, M1)),
 ]
